@@ -27,6 +27,7 @@ import (
 	"encoding/hex"
 	"fmt"
 	"io"
+	"io/fs"
 	"path"
 	"strings"
 	"time"
@@ -83,6 +84,52 @@ type Entry struct {
 	// Raw, when non-empty, is used verbatim as the header name (hostile names for C06);
 	// Path is then ignored by the builders and the reference model derives everything from Raw.
 	Raw string `json:"raw,omitempty"`
+}
+
+// Special bits of a tar header mode (POSIX c_ISUID, c_ISGID, c_ISVTX).
+const (
+	TarSetuid int64 = 0o4000
+	TarSetgid int64 = 0o2000
+	TarSticky int64 = 0o1000
+)
+
+// SpecialBits returns the setuid / setgid / sticky bits of a tar header mode as the
+// fs.FileMode flags a consumer of the tar has to report for the entry (POSIX: 04000 set-uid,
+// 02000 set-gid, 01000 sticky); 0 for a plain permission mode.
+func SpecialBits(tarMode int64) fs.FileMode {
+	var m fs.FileMode
+	if tarMode&TarSetuid != 0 {
+		m |= fs.ModeSetuid
+	}
+	if tarMode&TarSetgid != 0 {
+		m |= fs.ModeSetgid
+	}
+	if tarMode&TarSticky != 0 {
+		m |= fs.ModeSticky
+	}
+	return m
+}
+
+// FileModeBits returns permission and special bits of a tar header mode as fs.FileMode
+// (without any type bit).
+func FileModeBits(tarMode int64) fs.FileMode {
+	return fs.FileMode(tarMode&0o777) | SpecialBits(tarMode)
+}
+
+// TarMode is the inverse of FileModeBits: permission and setuid/setgid/sticky flags of m in
+// tar header encoding (type bits are ignored).
+func TarMode(m fs.FileMode) int64 {
+	out := int64(m.Perm())
+	if m&fs.ModeSetuid != 0 {
+		out |= TarSetuid
+	}
+	if m&fs.ModeSetgid != 0 {
+		out |= TarSetgid
+	}
+	if m&fs.ModeSticky != 0 {
+		out |= TarSticky
+	}
+	return out
 }
 
 // D, F, S, W, O are short constructors for plain-style entries.
